@@ -80,16 +80,19 @@ Step(st, r, i) ==
         known == b \in DOMAIN st.pcfg
         wasLoose == b \in st.loose
         nowLoose == wasLoose \/ (s.op \in {"upd", "create"} /\ b \in st.made)
-        src == IF s.op \in {"new", "upd"} /\ s.d # 0 THEN docs[s.d]
-               ELSE IF s.op = "create" /\ known THEN M(st.ppend[b]) ELSE EmptyMap
+        (* a source is taken as the document shows itself before the step (a document that the implementation *)
+        (* has modified is reported once, under merge.doc_unmodified, not again through everything merged later) *)
+        cur == st.odocs
+        src == IF s.op \in {"new", "upd"} /\ s.d # 0 THEN cur[s.d]
+               ELSE IF s.op = "create" /\ known THEN M([key \in DOMAIN st.ppend[b] |-> cur[st.ppend[b][key]]]) ELSE EmptyMap
         merged == IF s.op = "new" THEN (IF s.d = 0 THEN (IF IsMap(ocfg[b]) THEN ocfg[b].m ELSE <<>>) ELSE Merge(<<>>, src.m))
                   ELSE IF s.op \in {"upd", "create"} /\ known THEN Merge(st.pcfg[b], src.m)
                   ELSE IF known THEN st.pcfg[b] ELSE <<>>
         ment == IF s.op = "new" THEN {}
                 ELSE IF ~known THEN {}
-                ELSE IF s.op = "upd" THEN st.ment[b] \cup Mentions(docs[s.d], r.optkey)
-                ELSE IF s.op = "set" /\ s.key = r.optkey /\ IsMap(docs[s.d])
-                     THEN st.ment[b] \cup {key \in DOMAIN docs[s.d].m : docs[s.d].m[key].k # "d"}
+                ELSE IF s.op = "upd" THEN st.ment[b] \cup Mentions(cur[s.d], r.optkey)
+                ELSE IF s.op = "set" /\ s.key = r.optkey /\ IsMap(cur[s.d])
+                     THEN st.ment[b] \cup {key \in DOMAIN cur[s.d].m : cur[s.d].m[key].k # "d"}
                 ELSE st.ment[b]
         block == IF s.op = "create" THEN Block(merged, r) ELSE <<>>
         grouped == block # <<>>
@@ -125,7 +128,7 @@ Step(st, r, i) ==
         pnew == IF s.op \in {"new", "upd", "create"} THEN (IF resync THEN ocfg[b].m ELSE expCfg) ELSE merged
     IN [pcfg |-> IF s.op = "obs" THEN st.pcfg ELSE Put(st.pcfg, b, pnew),
         ppend |-> IF s.op = "new" THEN Put(st.ppend, b, <<>>)
-                  ELSE IF s.op = "set" /\ known THEN Put(st.ppend, b, Put(st.ppend[b], s.key, docs[s.d]))
+                  ELSE IF s.op = "set" /\ known THEN Put(st.ppend, b, Put(st.ppend[b], s.key, s.d))
                   ELSE st.ppend,
         made |-> IF s.op = "create" THEN st.made \cup {b} ELSE st.made,
         loose |-> loose,
